@@ -147,12 +147,15 @@ def run(F, rep, tier):
             for s in f.stmts():
                 for p in s.src_places():
                     reads |= set(x for x in p.fields() if not x.isdigit())
-            ok = len(as_str) == nstr and len(op) == 1 and not reads
+            # ... nor on how the value is stored: the representation's variant (Static / Inline / Heap) is not inspected
+            discr = [s for s in f.stmts() if s.rv_kind() == "discr"]
+            ok = len(as_str) == nstr and len(op) == 1 and not reads and not discr
             if ok:
                 for a in op[0].args[:nstr]:
                     ok = ok and "call:as_str" in f.origins(a, through_calls=())
         rep.check(ok, "Repr::%s|content-only" % name, "K6 provenance", "Repr::%s applies the operation to as_str() only" % name,
-                  "Repr::%s depends on more than the string content" % name, fs[0].site() if fs else None)
+                  "Repr::%s depends on more than the string content (a field or the storage variant of the representation is inspected): equal text stored differently "
+                  "(a `text!` literal vs. a parsed value) would compare or hash differently" % name, fs[0].site() if fs else None)
     pc = [f for f in F.fns if f.name == "partial_cmp" and f.self_adt == T + "repr::Repr"]
     rep.check(len(pc) == 1 and any(c.is_("Ord::cmp") for c in pc[0].calls), "Repr::partial_cmp|delegates", "K6 provenance", "partial_cmp = Some(cmp)")
     # R4 validators
